@@ -21,7 +21,8 @@ from lx.lifted import LiftedScript, dump_runner, set_eq
 from lx.tree import Names
 
 PID = "C13"
-BOUNDS = ("18 hand-written statement templates over schema-qualified tables (s.t1, s.t2, s.w) + a seeded share of the corpus under an "
+BOUNDS = ("25 hand-written statement templates over schema-qualified tables (s.t1, s.t2, s.w; two with free schema/table names), 5 of them also under 2-6 further "
+          "grammars (postgres, redshift, impala, sparksql, snowflake, tsql, mysql) + a seeded share of the corpus under an "
           "unrelated provider; metadata column names free (2 characters over the identifier alphabet; thorough: 1-3), 1-3 columns "
           "per table, a free known/unknown bit per table; provider = DummyMetaDataProvider (dict-backed)")
 STUBS = ["sqllineage.runner.split / SqlFluffLineageAnalyzer._list_specific_statement_segment (parser boundary)"]
